@@ -131,11 +131,20 @@ def _h_malformed(ctx, cls, corruption, fitted_before):
                   pd.Series([0, 1] * (N // 2), index=X.index)][variant]
         detail = f"y classes variant {variant}"
     elif corruption == "y_index":
-        off = ctx.choose("offset", 3) + 1
+        variant = ctx.choose("variant", 3)
         idx = list(X.index)
-        idx[pos] = idx[pos] + 1000 * off
+        if variant == 0:
+            off = ctx.choose("offset", 3) + 1
+            idx[pos] = idx[pos] + 1000 * off
+            detail = f"y.index[{pos}] shifted"
+        elif variant == 1:  # same labels, two of them swapped
+            other = (pos + 1 + ctx.choose("other", N - 1)) % N
+            idx[pos], idx[other] = idx[other], idx[pos]
+            detail = f"y.index: labels of rows {pos} and {other} swapped"
+        else:  # same labels, reversed
+            idx = idx[::-1]
+            detail = "y.index reversed"
         yc = pd.Series(list(y), index=idx)
-        detail = f"y.index[{pos}] shifted"
     elif corruption == "x_type":
         variant = ctx.choose("variant", 3)
         Xc = [X.values, X.to_dict("list"), X["f"]][variant]
